@@ -63,13 +63,18 @@ def build_jobs(tier, seed, kf_on):
             m = n * nctl
             perms = [None, list(reversed(range(m)))] + ([list(range(1, m)) + [0]] if m > 2 else [])
             colorders = [None, list(reversed(blkcols))]
-            for backend in ("pandas", "polars"):
+            for backend in ("pandas", "polars", "sqlite", "postgresql-model"):
                 def side(src, inmap=None):
                     d = {"kind": backend, "src": src}
+                    if backend in ("sqlite", "postgresql-model"):
+                        # the SQL text the real to_sql emits for the convert_records step (cdata's blocks_to_rowrecs / rowrecs_to_blocks SQL)
+                        d = {"kind": "sql", "src": src, "dialect": backend.split("-")[0]}
                     if inmap:
                         d["inmap"] = inmap
                     return d
-                common = dict(assume=assume, max_paths=3000 if tier == "quick" else 20000, wall_s=120, b_may_raise=False)
+                common = dict(assume=assume, max_paths=3000 if tier == "quick" else 20000, wall_s=120, b_may_raise=False, ordered=False)
+                if backend == "postgresql-model":
+                    common["validate"] = 0
                 jobs.append(simple.tv_job(f"{lay['name']} rows->blocks:{backend}@{n}", schema, rows, side(out_src), ref_blk, kf_on, tier, **common))
                 jobs.append(simple.tv_job(f"{lay['name']} round-trip inverse:{backend}@{n}", schema, rows, side(rt_src), ref_rows, kf_on, tier, **common))
                 for p, co in itertools.product(perms, colorders):
@@ -77,12 +82,15 @@ def build_jobs(tier, seed, kf_on):
                         continue
                     im = {"__fn__": ("vf.sym.refsem:unpivot_tables", ["r", "blk", lay_j, p, co]), "r": {"drop": True}}
                     jobs.append(simple.tv_job(f"{lay['name']} blocks->rows perm={p} cols={'rev' if co else 'std'}:{backend}@{n}", schema, rows, side(in_src, im), ref_rows, kf_on, tier, **common))
+                    if backend not in ("pandas", "polars"):
+                        continue
                     # the same through RecordMap.transform(frame) directly: the frame's own column order reaches the transform
                     rm_in = f"RecordMap(blocks_in={spec_src(lay)})"
                     jobs.append(simple.tv_job(f"{lay['name']} transform(blocks) perm={p} cols={'rev' if co else 'std'}:{backend}@{n}", schema, rows,
                                               {"kind": "recmap", "rm": rm_in, "table": "blk", "backend": backend, "inmap": im}, ref_rows, kf_on, tier, **common))
+                if backend not in ("pandas", "polars"):
+                    continue
                 rm_out = f"RecordMap(blocks_out={spec_src(lay)})"
-                rev_rows = {"r": {"keep": None}}
                 jobs.append(simple.tv_job(f"{lay['name']} transform(rows):{backend}@{n}", schema, rows, {"kind": "recmap", "rm": rm_out, "table": "r", "backend": backend}, ref_blk, kf_on, tier, **common))
             # Pandas == Polars on the transform itself
             jobs.append(simple.tv_job(f"{lay['name']} rows->blocks pandas==polars@{n}", schema, rows, {"kind": "pandas", "src": out_src}, {"kind": "polars", "src": out_src}, kf_on, tier,
